@@ -196,8 +196,66 @@ def deleg_rule(chk, db):
         chk.analysis_broken("DELEG: only %d forwarding members of etl::bitset (floor 12)" % n)
 
 
+def proxy_rule(chk, db):
+    """PROXY: assignment to the bit proxy writes the referenced bit. Both `reference::operator=(bool)` and
+    `reference::operator=(reference const&)` are user-provided and every path through them stores into the referenced word
+    (a defaulted copy assignment would rebind the proxy instead, b[i] = b[j] would change nothing)."""
+    n = 0
+    for rq, recs in db.rec_by_q.items():
+        if not rq.endswith("::reference") or "bitset" not in rq:
+            continue
+        rec = recs[0] if isinstance(recs, list) else recs
+        fields = set(fd["n"] for fd in rec.get("fields", []))
+        ops = [f for f in db.funcs if f.get("record") == rq and f["n"] == "operator="]
+        kinds = {}
+        for f in ops:
+            ty = f["params"][0]["ty"] if f["params"] else ""
+            kinds["reference" if "reference" in ty else ("bool" if "bool" in ty else ty)] = f
+        for want in ("bool", "reference"):
+            construct = "%s::operator=(%s)" % (rq, "bool" if want == "bool" else "reference const&")
+            chk.instance("PROXY")
+            n += 1
+            f = kinds.get(want)
+            if f is None:
+                if want == "reference":
+                    chk.obligation("PROXY", construct, False)
+                    chk.violation("PROXY", construct, "implicit-assignment", "include/etl/%s: %s has no user-provided copy assignment: the implicit "
+                                  "one rebinds the proxy and never writes the bit" % (rec.get("file", "?"), rq), {"where": rec.get("file")})
+                else:
+                    chk.obligation("PROXY", construct, None)
+                    chk.unknown_instance("PROXY", construct, "no operator=(bool) found")
+                continue
+            if f.get("body") is None:
+                chk.obligation("PROXY", construct, False)
+                chk.violation("PROXY", construct, "defaulted-assignment", "%s: the assignment is defaulted/deleted: it copies the proxy's "
+                              "members instead of writing the referenced bit" % astx.loc(f), {"where": astx.loc(f)})
+                continue
+            bad = None
+            for p in SP.paths(f["body"]):
+                wrote = False
+                for ev in p:
+                    for e in SP.event_exprs(ev):
+                        for x in astx.walk_expr(e):
+                            if x.get("k") == "bin" and x["op"] in ("=", "|=", "&=", "^="):
+                                l = astx.strip_casts(x["l"])
+                                if l is not None and l.get("k") == "un" and l["op"] == "*":
+                                    t = astx.strip_casts(l["e"])
+                                    if t is not None and t.get("k") == "mem" and t.get("n") in fields:
+                                        wrote = True
+                            if x.get("k") == "call" and astx.callee(x)[0] in ("set", "reset", "flip", "operator=") and astx.callee(x)[3] == "member":
+                                wrote = True
+                if not wrote:
+                    bad = p
+            chk.obligation("PROXY", construct, bad is None)
+            if bad is not None:
+                chk.violation("PROXY", construct, "no-write-through", "%s: a path through the proxy assignment does not store into the referenced word" % astx.loc(f),
+                              {"where": astx.loc(f)})
+    if n < 2:
+        chk.analysis_broken("PROXY: no bit proxy class found")
+
+
 def witness(chk):
-    pro = "#include <etl/bitset.hpp>\n#include <etl/cstdint.hpp>\n#include <bitset>\n"
+    pro = "#include <etl/bitset.hpp>\n#include <etl/cstdint.hpp>\n#include <bitset>\n#include <type_traits>\n"
     tu = wit.TU("c17", pro)
     for w in (1, 7, 8, 9, 31, 32, 33, 63, 64, 65, 127, 128, 129):
         for wt, bits in (("etl::uint8_t", 8), ("etl::uint16_t", 16), ("etl::uint32_t", 32), ("etl::uint64_t", 64)):
@@ -205,6 +263,8 @@ def witness(chk):
             tu.add("static_assert(sizeof(etl::basic_bitset<%d, %s>) == %d * sizeof(%s) && etl::basic_bitset<%d, %s>{}.size() == %d);" % (
                 w, wt, words, wt, w, wt, w), "basic_bitset<%d,%s> storage is %d word(s)" % (w, wt, words))
         tu.add("static_assert(etl::bitset<%d>{}.size() == std::bitset<%d>{}.size());" % (w, w), "bitset<%d>::size()" % w)
+        tu.add("static_assert(std::is_trivially_copy_assignable_v<etl::bitset<%d>::reference> == std::is_trivially_copy_assignable_v<std::bitset<%d>::reference>);" % (w, w),
+               "bitset<%d>::reference copy assignment is user-provided like std's" % w)
     res = wit.compile_many([tu])
     results, un = res[tu.name]
     wit.judge(chk, "W-TYPES", tu, results, un)
@@ -234,6 +294,7 @@ def run(chk, tier):
     taint_rule(chk, db)
     deleg_rule(chk, db)
     guard_rule(chk, db)
+    proxy_rule(chk, db)
     nrel = rel.check(chk, db, ["_bitset/bitset.hpp"])
     witness(chk)
     chk.assumptions += [
